@@ -227,6 +227,29 @@ def exact_partial(e, v, env):
 
 
 # ------------------------------------------------------------------ C01
+def sensitive_parameter_cases():
+    """(expression, point) pairs on which a parameter or constant that is stored slightly off (snapped to a nearby
+    integer or to e, rounded to some digits, taken with a tolerance) changes the value grossly or changes its kind:
+    bases next to 1 at arguments of the order of 1/(base - 1), roots and powers whose index is given as a float,
+    constants next to a pole or to the edge of a domain"""
+    x = ('V', 2)
+    out = []
+    for d in (1e-13, 4e-13, 1e-12, 1e-10, 3e-9, -1e-13, -1e-11):
+        b1 = 1 + d
+        big = abs(1 / d)
+        out += [(('Exp', x, b1), [(2, big)]), (('Exp', x, b1), [(2, -big)]), (('Exp', ('Neg', x), b1), [(2, big / 2)]),
+                (('Log', x, b1), [(2, 2)]), (('Log', x, b1), [(2, 0.5)]), (('Log', ('Exp', x, b1), b1), [(2, big)]),
+                (('Power', ('C', b1), x), [(2, big)]), (('Power', ('Add', [('C', 1), ('C', d)]), x), [(2, big)]),
+                (('Recip', ('Minus', x, ('C', b1))), [(2, 1)]), (('Log', ('Minus', x, ('C', b1)), E), [(2, 1 + 2 * d if d > 0 else 1)]),
+                (('Divide', ('C', 1), ('Minus', ('C', b1), x)), [(2, 1)]),
+                (('NthRoot', ('Minus', x, ('C', 1)), 2), [(2, b1)]), (('NthPow', ('Mul', [x, ('C', b1)]), 7), [(2, 1e40)])]
+    for b0 in (2, 3, 10, E, 0.5):
+        for d in (1e-9, -1e-9, 1e-7):
+            bb = b0 * (1 + d)
+            out += [(('Log', x, bb), [(2, 1e300)]), (('Exp', x, bb), [(2, 600 / math.log(max(b0, 1.5)) if b0 > 1 else -600 / math.log(2))])]
+    return out
+
+
 def check_C01(ctx):
     rng, tier = ctx.rng, ctx.tier
     rep = Report('C01')
@@ -246,6 +269,9 @@ def check_C01(ctx):
             pass
     b = Batch()
     meta = []
+    for e, p in sensitive_parameter_cases():
+        i = b.add('EVAL %s %s' % (sx.point_sx(p), sx.to_sx(e)))
+        meta.append((i, e, p, 'EVAL'))
     for e in exprs:
         es = sx.to_sx(e)
         for p in points_for(rng, e, 2):
@@ -426,6 +452,18 @@ def check_C02(ctx):
                     rng.shuffle(p)
                     i = b.add('EVAL %s %s' % (sx.point_sx(p), sx.to_sx(par)))
                     meta.append((i, par))
+    # general powers: offending bases x exponents for which an implementation may have a fast path (1/2, 1, 2, -1, 0, 1/3 ...)
+    x_, y_ = ('V', 2), ('V', 3)
+    for ev in (0.5, 1, 1.0, 2, 2.0, -1, -1.0, 0, 0.0, -0.0, 0.25, 1 / 3, 3, -0.5, 1.5, -2):
+        for bv_ in (0, 0.0, -0.0, -1, -2.5, -1e-300, 5e-324, 1, 4):
+            for e_ in (('Power', x_, y_), ('Power', x_, ('C', ev)), ('Power', x_, ('Mul', [('C', ev), ('Divide', y_, y_)])),
+                       ('Mul', [('C', 0), ('Power', x_, y_)]), ('Add', [('Power', ('Neg', ('Neg', x_)), y_), ('C', 1)])):
+                p = [(2, bv_), (3, ev)]
+                i = b.add('EVAL %s %s' % (sx.point_sx(p), sx.to_sx(e_)))
+                meta.append((i, e_))
+    for e_, p in sensitive_parameter_cases():
+        i = b.add('EVAL %s %s' % (sx.point_sx(p), sx.to_sx(e_)))
+        meta.append((i, e_))
     n = sizes(tier, 300, 8000)
     bv = gen.boundary_values()
     for _ in range(n):
@@ -513,7 +551,12 @@ def bundle_cases(rng, tier, quick, thorough, special=None):
                 v = rng.choice(ids)
             else:
                 v = rng.choice([2, 3, 4, 7])     # possibly absent from e and from the point
-            if rng.random() < 0.12:
+            r_ = rng.random()
+            if r_ < 0.08:
+                # unusual but legal names: not NFKC-normalised, equal after normalisation or case folding, keywords
+                m_ = dict(zip([2, 3, 4, 5, 6, 7], rng.sample(sorted(sx.UNUSUAL_NAMES), 6)))
+                cases.append((rename_vars(e, m_), [(m_.get(k, k), x) for k, x in p], m_.get(v, v)))
+            elif r_ < 0.20:
                 # variable names that contain one another (v2, v22, v222; v3, v32): a name test that is not an
                 # exact comparison confuses them
                 e2, p2, v2 = rename_vars(e, SUBSTRING_NAMES), [(SUBSTRING_NAMES.get(k, k), x) for k, x in p], SUBSTRING_NAMES.get(v, v)
@@ -1001,6 +1044,13 @@ def check_C08(ctx):
     exprs += expr_pool(rng, sizes(tier, 250, 5000), max_size=14, with_patterns=False)
     exprs += folded_constant_cases(rng, sizes(tier, 40, 600))
     exprs += gen.repairable_singular(rng, [2, 3], sizes(tier, 60, 800))
+    # inverse pairs whose parameters are almost, but not exactly, the same (a tolerant comparison cancels them):
+    # bases next to one another and next to 1, where the exponent ln b2 / ln b1 is far from 1
+    for b1, b2 in ((1 + 1e-9, 1 + 1.5e-9), (1 + 1e-10, 1 + 3e-10), (2.0, math.nextafter(2.0, 3)), (E, math.nextafter(E, 3)),
+                   (1.000001, math.nextafter(1.000001, 2)), (0.5, 0.5 * (1 + 1e-10)), (10, 10.000000001), (1 - 1e-9, 1 - 2e-9)):
+        for u in (('V', 2), ('Add', [('V', 2), ('C', 1)]), ('Mul', [('V', 2), ('V', 3)])):
+            exprs += [('Exp', ('Log', u, b1), b2), ('Log', ('Exp', u, b1), b2), ('Exp', ('Log', u, b2), b1),
+                      ('Mul', [('Exp', u, b1), ('Exp', ('V', 3), b2)]), ('Add', [('Log', u, b1), ('Log', ('V', 3), b2)])]
     pre = ['SYNFWD 2 %s' % sx.to_sx(e) for e in exprs[:sizes(tier, 150, 2000)] if sx.size(e) <= 7]
     for s in core.run_model(pre):
         try:
